@@ -319,7 +319,7 @@ Lemma assemble_queue : forall S i pos st o n fin rst ts,
   zlen S < HIS -> inv S i pos st -> h_closed (s_half st) = false ->
   pos < o -> 0 <= n -> o + n <= zlen S ->
   exists st' ev, assemble fixedv st (mkSeg (sq i o) false fin rst false ts (sub S o n)) = (st', ev, false) /\
-    inv S i pos st' /\ ev_new ev = [] /\ ev_clean ev.
+    s_rev_seen st' = s_rev_seen st /\ inv S i pos st' /\ ev_new ev = [] /\ ev_clean ev.
 Proof.
   intros S i pos st o n fin rst ts HS Hinv Hopen Ho Hn HoS.
   destruct Hinv as [Hex Hcfg Hrev Hsv Hop Hpos]. destruct (Hop Hopen) as (Hnx & Hq).
@@ -338,7 +338,7 @@ Proof.
     try lia; try assumption; try apply HIS_HI.
   fold r in Hp, Hq'. rewrite Hp.
   unfold limit_hit, cfg0. cbn [c_mpc c_mt]. replace (0 <? 0) with false by reflexivity. cbn [andb orb].
-  eexists. eexists. split; [reflexivity|]. split; [|split].
+  eexists. eexists. split; [reflexivity|]. split; [reflexivity|]. split; [|split].
   - constructor; cbn [s_exists s_cfg s_rev_closed s_half h_saved h_closed h_next h_queue]; try reflexivity; try lia.
     intros _. split; [reflexivity|assumption].
   - cbn [app]. apply ev_new_tags.
@@ -368,6 +368,7 @@ Lemma assemble_inorder : forall S i pos st sqv (syn : bool) o n fin rst ts,
   (if syn then sadd sqv 1 else sqv) = sq i o ->
   0 <= o -> o <= pos -> 0 <= n -> o + n <= zlen S -> (fin = true -> o + n = zlen S) ->
   exists st' ev pos', assemble fixedv st (mkSeg sqv syn fin rst false ts (sub S o n)) = (st', ev, false) /\
+    s_rev_seen st' = s_rev_seen st /\
     pos <= pos' /\ inv S i pos' st' /\ ev_new ev = sub S pos (pos' - pos) /\ ev_clean ev.
 Proof.
   intros S i pos st sqv syn o n fin rst ts HS Hinv Hopen Hseq Ho Hop Hn HoS Hfin.
@@ -405,7 +406,7 @@ Proof.
       unfold close_c2s. cbn [s_half s_rev_closed s_cfg s_exists s_rev_seen s_used s_sid s_ncalls
                             h_pages h_saved h_queue h_next h_seen h_closed].
       rewrite sq_not_invalid.
-      eexists. eexists. exists e'. split; [reflexivity|]. split; [lia|]. split; [|split].
+      eexists. eexists. exists e'. split; [reflexivity|]. split; [reflexivity|]. split; [lia|]. split; [|split].
       * constructor; cbn [s_exists s_cfg s_rev_closed s_half set_half set_next h_saved h_closed h_next h_queue];
           try reflexivity; try lia; try (intros Hc; discriminate).
       * cbn [app]. rewrite !ev_new_app, ev_new_tags, ev_new_if_tag. cbn [app].
@@ -419,7 +420,7 @@ Proof.
         assert (Hqe : c2_queue r = []) by (eapply qok_beyond_end; [exact Hq'|lia]).
         rewrite (Htk0 Hqe) in Eend. cbn in Eend. rewrite orb_true_r in Eend. discriminate. }
       subst fin.
-      eexists. eexists. exists e'. split; [reflexivity|]. split; [lia|]. split; [|split].
+      eexists. eexists. exists e'. split; [reflexivity|]. split; [reflexivity|]. split; [lia|]. split; [|split].
       * constructor; cbn [s_exists s_cfg s_rev_closed s_half set_half set_next h_saved h_closed h_next h_queue];
           try reflexivity; try lia. intros _. split; [reflexivity|assumption].
       * cbn [app]. rewrite !ev_new_app, ev_new_tags, ev_new_if_tag. cbn [app].
@@ -428,7 +429,7 @@ Proof.
         constructor; [split; reflexivity|constructor].
   - (* nothing new and no flag: nothing is sent *)
     assert (n' = 0) by lia.
-    eexists. eexists. exists pos. split; [reflexivity|]. split; [lia|]. split; [|split].
+    eexists. eexists. exists pos. split; [reflexivity|]. split; [reflexivity|]. split; [lia|]. split; [|split].
     + constructor; cbn [s_exists s_cfg s_rev_closed s_half h_saved h_closed h_next h_queue]; try reflexivity; try lia.
       intros _. split; [reflexivity|]. eapply qok_weaken; eauto; lia.
     + cbn [app]. rewrite ev_new_app, ev_new_tags, ev_new_if_tag. replace (pos - pos) with 0 by lia. reflexivity.
@@ -438,14 +439,14 @@ Qed.
 (* a closed half ignores the segment *)
 Lemma assemble_closed : forall S i pos st g,
   inv S i pos st -> h_closed (s_half st) = true ->
-  exists st', assemble fixedv st g = (st', [], false) /\ inv S i pos st'.
+  exists st', assemble fixedv st g = (st', [], false) /\ s_rev_seen st' = s_rev_seen st /\ inv S i pos st'.
 Proof.
   intros S i pos st g Hinv Hcl.
   destruct Hinv as [Hex Hcfg Hrev Hsv Hopn Hpos].
   destruct st as [c ex h rc rs used sid nc]. cbn [s_exists s_cfg s_rev_closed s_half] in *. subst c ex rc.
   destruct h as [pg_ sv q nx seen cl]. cbn [h_saved h_closed h_next h_queue] in *. subst sv cl.
   unfold assemble. cbn [s_exists s_half h_pages h_saved h_queue h_next h_seen h_closed].
-  eexists. split; [reflexivity|].
+  eexists. split; [reflexivity|]. split; [reflexivity|].
   constructor; cbn [s_exists s_cfg s_rev_closed s_half set_half h_saved h_closed h_next h_queue];
     try reflexivity; try lia; try (intros Hc; discriminate).
 Qed.
@@ -461,7 +462,7 @@ Proof. intros. unfold sadd, sq, M32. lia. Qed.
 Lemma assemble_first_syn : forall S i n ts,
   zlen S < HIS -> 0 <= n <= zlen S ->
   exists st' ev, assemble fixedv init (mkSeg (i mod M32) true false false false ts (sub S 0 n)) = (st', ev, false) /\
-    inv S i n st' /\ ev_new ev = sub S 0 n /\ ev_clean ev.
+    s_rev_seen st' = ts /\ inv S i n st' /\ ev_new ev = sub S 0 n /\ ev_clean ev.
 Proof.
   intros S i n ts HS Hn.
   unfold assemble, init. cbn [s_exists s_half s_cfg s_used s_sid s_ncalls s_rev_closed s_rev_seen new_half
@@ -487,7 +488,7 @@ Proof.
   cbn [sr_panic sr_end sr_half sr_used sr_next sr_ev h_pages h_saved h_queue h_next h_seen h_closed
        map last_end rev app cend lend orb].
   rewrite sq_not_invalid.
-  eexists. eexists. split; [reflexivity|]. split; [|split].
+  eexists. eexists. split; [reflexivity|]. split; [reflexivity|]. split; [|split].
   - constructor; cbn [s_exists s_cfg s_rev_closed s_half set_half set_next h_saved h_closed h_next h_queue];
       try reflexivity; try lia. intros _. split; [reflexivity|]. replace (n + 1) with (0 + n + 1) by lia. assumption.
   - cbn [app]. rewrite ev_new_cons_new, ev_new_app, ev_new_if_tag. cbn [app].
@@ -502,17 +503,18 @@ Definition seg_hop (h : hop) : bool := match h with HSyn _ _ | HData _ _ _ _ _ =
 Lemma step_hop : forall S i pos st h,
   zlen S < HIS -> inv S i pos st -> seg_hop h = true -> hop_okb S h = true ->
   exists st' ev pos', step fixedv st (op_of S i h) = (st', ev, false) /\
+    s_rev_seen st' = s_rev_seen st /\
     pos <= pos' /\ inv S i pos' st' /\ ev_new ev = sub S pos (pos' - pos) /\ ev_clean ev.
 Proof.
   intros S i pos st h HS Hinv Hseg Hok.
   destruct (h_closed (s_half st)) eqn:Hcl.
   - (* closed *)
     destruct h as [| |n ts|o n fin rst ts| |]; try discriminate; cbn [op_of step].
-    + destruct (assemble_closed S i pos st (mkSeg (i mod M32) true false false false ts (sub S 0 n)) Hinv Hcl) as (st' & He & Hi).
-      exists st', [], pos. split; [exact He|]. split; [lia|]. split; [exact Hi|].
+    + destruct (assemble_closed S i pos st (mkSeg (i mod M32) true false false false ts (sub S 0 n)) Hinv Hcl) as (st' & He & Hr & Hi).
+      exists st', [], pos. split; [exact He|]. split; [exact Hr|]. split; [lia|]. split; [exact Hi|].
       split; [replace (pos - pos) with 0 by lia; reflexivity|constructor].
-    + destruct (assemble_closed S i pos st (mkSeg (sq i o) false fin rst false ts (sub S o n)) Hinv Hcl) as (st' & He & Hi).
-      exists st', [], pos. split; [exact He|]. split; [lia|]. split; [exact Hi|].
+    + destruct (assemble_closed S i pos st (mkSeg (sq i o) false fin rst false ts (sub S o n)) Hinv Hcl) as (st' & He & Hr & Hi).
+      exists st', [], pos. split; [exact He|]. split; [exact Hr|]. split; [lia|]. split; [exact Hi|].
       split; [replace (pos - pos) with 0 by lia; reflexivity|constructor].
   - destruct h as [| |n ts|o n fin rst ts| |]; try discriminate; cbn [op_of step hop_okb] in *.
     + (* a SYN when the start is already known: its payload lies at offset 0 *)
@@ -523,8 +525,8 @@ Proof.
       * apply (assemble_inorder S i pos st (sq i o) false o n fin rst ts); try assumption; try lia;
           try reflexivity.
         intros Hf. subst fin. cbn [negb orb] in Hok. lia.
-      * destruct (assemble_queue S i pos st o n fin rst ts) as (st' & ev & He & Hi & Hn & Hc); try assumption; try lia.
-        exists st', ev, pos. split; [exact He|]. split; [lia|]. split; [exact Hi|].
+      * destruct (assemble_queue S i pos st o n fin rst ts) as (st' & ev & He & Hr & Hi & Hn & Hc); try assumption; try lia.
+        exists st', ev, pos. split; [exact He|]. split; [exact Hr|]. split; [lia|]. split; [exact Hi|].
         split; [rewrite Hn; replace (pos - pos) with 0 by lia; reflexivity|exact Hc].
 Qed.
 
@@ -550,7 +552,7 @@ Proof.
     split; [reflexivity|]. split; [replace (pos - pos) with 0 by lia; reflexivity|constructor].
   - cbn [forallb] in Hseg, Hok. apply andb_prop in Hseg. apply andb_prop in Hok.
     destruct Hseg as (Hs1 & Hs2). destruct Hok as (Ho1 & Ho2).
-    destruct (step_hop S i pos st h HS Hinv Hs1 Ho1) as (st' & ev & pos1 & He & Hp & Hi & Hn & Hc).
+    destruct (step_hop S i pos st h HS Hinv Hs1 Ho1) as (st' & ev & pos1 & He & _ & Hp & Hi & Hn & Hc).
     destruct (IH pos1 st' HS Hi Hs2 Ho2) as (pos' & Hp1 & Hp2 & Hl & Hd & Hcl).
     exists pos'. split; [lia|]. split; [lia|]. cbn [map run_trace]. rewrite He.
     cbn [length]. split; [rewrite Hl; reflexivity|]. split.
@@ -572,7 +574,7 @@ Theorem stream_partial : forall S i n0 ts0 hs,
   exists pos, n0 <= pos <= zlen S /\ delivered tr = sub S 0 pos /\ Forall (fun x => ev_clean (fst x)) tr.
 Proof.
   intros S i n0 ts0 hs HS Hn0 Hseg Hok tr. subst tr. unfold run_hist. cbn [map op_of run_trace step].
-  destruct (assemble_first_syn S i n0 ts0 HS Hn0) as (st' & ev & He & Hi & Hn & Hc).
+  destruct (assemble_first_syn S i n0 ts0 HS Hn0) as (st' & ev & He & _ & Hi & Hn & Hc).
   rewrite He.
   destruct (run_hops S i hs n0 st' HS Hi Hseg Hok) as (pos' & Hp1 & Hp2 & Hl & Hd & Hcl).
   cbn [length]. split; [rewrite Hl; reflexivity|].
